@@ -329,6 +329,8 @@ def _no_influence(c: _Card) -> Tuple[bool, str, Optional[ast.AST]]:
     for e in it.events:
         if is_book(e) or (e.kind == "call" and e.term in msg_terms):
             continue
+        if e.kind == "inline":
+            continue            # the evaluation of a private helper in line: everything it does is in the log as events of its own
         if e.kind == "call" and e.term[1][0] == "name" and e.term[1][1] in pure and not _mentions(e.term, ex):
             continue            # evaluating a pure builtin has no effect; what is done with its value is judged where it is used
         # 1. data dependence
